@@ -26,7 +26,7 @@ func init() {
 			{Name: "findroot", Variant: "plain", N: core.Tiered(3000, 1000000), Run: c18Root},
 			{Name: "piecewise", Variant: "plain", N: core.Tiered(600, 150000), Run: c18Piecewise},
 		},
-		RequireTags: func(string) []string { return []string{"root:converged", "root:budget-exhausted", "pw:outside", "pw:nan", "pw:knot"} },
+		RequireTags: func(string) []string { return []string{"root:converged", "root:budget-exhausted", "pw:outside", "pw:nan", "pw:knot", "pw:narrow-segment", "pw:scaled-units"} },
 	})
 }
 
@@ -214,6 +214,26 @@ func c18Root(c *core.Ctx) {
 func c18Piecewise(c *core.Ctx) {
 	n := c.R.IntRange(2, 8)
 	xs := increasingTable(c.R, n, c.R.Range(-100, 100), c.R.LogRange(1e-3, 1e3), true)
+	// the property quantifies over every strictly increasing table: also tables in very small or very large units,
+	// and tables with one segment only a few representable numbers (or a 1e-15..1e-8 sliver) wide
+	tableMode, narrow := c.R.Intn(4), -1
+	switch tableMode {
+	case 2:
+		sc := c.R.LogRange(1e-12, 1e12)
+		xs = increasingTable(c.R, n, c.R.Range(-10, 10)*sc, sc, true)
+	case 3:
+		j := c.R.IntRange(1, n-1)
+		narrow = j - 1
+		if c.R.Bool(0.5) {
+			v := xs[j-1]
+			for k := []int{1, 2, 3, 1000}[c.R.Intn(4)]; k > 0; k-- {
+				v = math.Nextafter(v, math.Inf(1))
+			}
+			xs[j] = v
+		} else if v := xs[j-1] + c.R.LogRange(1e-15, 1e-8)*math.Max(1, math.Abs(xs[j-1])); v > xs[j-1] && v < xs[j] {
+			xs[j] = v
+		}
+	}
 	ys := make([]float64, n)
 	for i := range ys {
 		switch c.R.Intn(6) {
@@ -227,7 +247,13 @@ func c18Piecewise(c *core.Ctx) {
 	}
 	layout := c.R.Intn(3)
 	c.Begin(map[string]interface{}{"model": "Piecewise", "xs": xs, "ys": ys, "layout": []string{"contiguous", "strided-column", "stepped"}[layout]})
-	c.Class(fmt.Sprintf("pw/n%d/layout%d", n, layout))
+	c.Class(fmt.Sprintf("pw/n%d/layout%d/table%d", n, layout, tableMode))
+	if narrow >= 0 {
+		c.Tag("pw:narrow-segment")
+	}
+	if tableMode == 2 {
+		c.Tag("pw:scaled-units")
+	}
 	mk := func(v []float64) data.ND1Float64 {
 		switch layout {
 		case 1: // column of a 2-D array
@@ -283,6 +309,9 @@ func c18Piecewise(c *core.Ctx) {
 	// interior points
 	for k := 0; k < 12; k++ {
 		i := c.R.Intn(n - 1)
+		if narrow >= 0 && k < 4 {
+			i = narrow
+		}
 		f := c.R.Float64()
 		q := xs[i] + f*(xs[i+1]-xs[i])
 		if q <= xs[i] || q >= xs[i+1] {
